@@ -16,10 +16,22 @@ def directed_groups(rng):
     """edge cases run on every tier: every function at both levels, every frame-bound kind pair, empty / single-row / all-null inputs,
     zero-sum ratio_to_report, rank with ties"""
     groups = []
+    # every function at both levels, twice, over one numeric dataset
+    d = A.gen_dataset(rng, nrows=12, measure_types=["Integer", "Number"])
+    perm = list(range(len(d["rows"])))
+    rng.shuffle(perm)
+    invs = []
     for fun in A.ALL_FUNS:
-        lv = [("calc",)] if fun == "rank" else [("ds",), ("calc",)]
-        g = A.make_group(rng, 0, fixed=[(fun, l[0]) for l in lv] * 2, measure_types=["Integer", "Number"])
-        groups.append(g)
+        for lv in (["calc"] if fun == "rank" else ["ds", "calc"]) * 2:
+            inv = None
+            for _ in range(10):
+                inv = A.gen_invocation(rng, d["shape"], fun, lv)
+                if inv is not None and not inv.get("known"):
+                    break
+            if inv is not None:
+                invs.append(inv)
+    for i in range(0, len(invs), 12):
+        groups.append({"ds": d, "invs": invs[i:i + 12], "perm": perm})
     # every valid (lo kind, hi kind) pair for sum / first_value / count
     d = A.gen_dataset(rng, nrows=14, measure_types=["Integer"])
     kinds = [("up", 0), ("prec", 2), ("prec", 0), ("cur", 0), ("foll", 1), ("foll", 3), ("uf", 0)]
@@ -34,8 +46,8 @@ def directed_groups(rng):
             f = rng.choice(["sum", "first_value", "last_value", "max", "avg"])
             invs.append({"level": "calc", "f": f, "operand": "Me_1", "target": "Me_9", "part": ["Id_1"], "ord": [["Id_2", rng.random() < 0.4]],
                          "win": {"mode": "data", "a": list(a), "b": list(b)}, "ties": False})
-    for i in range(0, len(invs), 10):
-        groups.append({"ds": d, "invs": invs[i:i + 10], "perm": list(reversed(range(len(d["rows"]))))})
+    for i in range(0, len(invs), 13):
+        groups.append({"ds": d, "invs": invs[i:i + 13], "perm": list(reversed(range(len(d["rows"]))))})
     # empty, single row, all-null measure
     for n in (0, 1):
         groups.append(A.make_group(rng, 6, nrows=n, measure_types=["Integer", "Number"]))
@@ -169,10 +181,10 @@ def run(ctx):
         corpus = [A.group_from_case(json.loads(p.read_text())) for p in sorted(cdir.glob("*.json"))] if cdir.exists() else []
         directed = directed_groups(ctx.rng)
         n_dir = sum(len(g["invs"]) for g in directed)
-        target = 300 if quick else 6000
+        target = 220 if quick else 6000
         groups, n = [], 0
         while n < target:
-            g = A.make_group(ctx.rng, ctx.rng.choice([6, 8, 8, 10]))
+            g = A.make_group(ctx.rng, ctx.rng.choice([10, 12, 12, 14]))
             if g["invs"]:
                 groups.append(g)
                 n += len(g["invs"])
